@@ -250,7 +250,7 @@ def run (j : Json) : Except String Json := do
   let text := Emit.moduleText O write defSrcs ⟨name, desc, s⟩
   let recog := PyGram.recognise X text
   -- the side conditions of `C09.emitted_module_accepted_partial`
-  let srcOk := defSrcs.all Emit.classSrcOk && Emit.classSrcOk ⟨name, desc, s⟩
+  let srcOk := defSrcs.all (Emit.classSrcOk X) && Emit.classSrcOk X ⟨name, desc, s⟩
   let clean := PyGram.textClean text
   let nestOk := PyGram.nestOk X text
   let recogReal : Option PyGram.Verdict := match optField j "code" with
